@@ -205,6 +205,9 @@ func (e *Engine) verifyFuncFor(key string, budget int, prop string) (res *FuncRe
 	g.MustFail = true
 	start := fr.cur
 	fr.run(start)
+	if fr.rgPoints > 0 {
+		x.c.note(fmt.Sprintf("rely/guarantee: %d interference points (every shared access and the return) in %s", fr.rgPoints, key))
+	}
 	res.Returns = len(fr.rets)
 	return
 }
